@@ -1,10 +1,14 @@
 #!/bin/bash
-# tools/runall.sh [quick|thorough]  run every check sequentially on /repo's working tree; one summary line each.
-T=${1:-quick}
+# tools/runall.sh [quick|thorough] [ids...]  run checks sequentially on /repo's working tree; one summary line each.
+# Thorough runs keep the quick evidence file of record in place and store their own evidence under evidence-thorough/.
+T=${1:-quick}; shift
+ids=("$@"); [ ${#ids[@]} -eq 0 ] && ids=($(seq -f 'C%02g' 1 20))
 cd /verif
-for i in $(seq -w 1 20); do
-  id=C$i
+mkdir -p evidence-thorough
+for id in "${ids[@]}"; do
+  [ "$T" = thorough ] && cp evidence/$id.json /tmp/evq.$id.$$ 2>/dev/null
   out=$(bin/check $id $T 2>&1); rc=$?
   echo "rc=$rc $(echo "$out" | tail -1 | cut -c1-200)"
   if [ $rc -ne 0 ]; then echo "$out" | grep "^VIOLATION\|ERROR" | cut -c1-400 | head -5; fi
+  if [ "$T" = thorough ]; then cp evidence/$id.json evidence-thorough/$id.json; [ -f /tmp/evq.$id.$$ ] && mv /tmp/evq.$id.$$ evidence/$id.json; fi
 done
